@@ -190,6 +190,14 @@ Proof.
   vm_compute. discriminate.
 Qed.
 
+(* FINDING: ExprCompiled::slice as written folds `"abcdefgh"[a:b:c]` (a, b, c parameters) to the whole string, whatever
+   a, b, c are at run time; with the intended guard (slice_c: every present bound a constant) nothing is folded *)
+Example C02_slice_as_written_refuted :
+  slice_as_written ops1 (Value (VStr "abcdefgh")) (Some (Local 0)) (Some (Local 1)) (Some (Local 2)) = Value (VStr "abcdefgh") /\
+  slice_c ops1 (Value (VStr "abcdefgh")) (Local 0) (Local 1) (Local 2)
+    = Slice (Value (VStr "abcdefgh")) (Local 0) (Local 1) (Local 2).
+Proof. vm_compute. repeat split; reflexivity. Qed.
+
 (* the guard of try_inline is necessary: substituting an UNASSIGNED local for the parameter changes which effect
    happens before the failure (def f(x): return (emit(1), x)[1] called as f(y) with y unassigned) *)
 Definition defs_ex (d : nat) : option (nat * expr) :=
